@@ -29,6 +29,11 @@ META = {
             "(one round, > 8000 games) decoded through the public "
             "constructor - the team counts around the int8/int16 edge of "
             "the plan storage type. "
+            "(5) 'sizes': one decoding for every (quick: every third) team "
+            "count 3..260 ((2, 1) is the excluded degenerate case), judged by consistency / no self-play / game "
+            "multiset, full model for n <= 40. (6) 'blueprint_big': "
+            "blueprints for 8..1001 rounds (int and numpy-integer "
+            "arguments). "
             "A decoding is non-trivial when at least one game had to be "
             "dropped or n is odd; distinct = distinct (n, rounds, ordering)",
     "assumptions": [
@@ -206,6 +211,89 @@ def check_decode(ctx: Ctx, case: dict) -> None:
                  labels=labels)
 
 
+def check_sizes(ctx: Ctx, case: dict) -> None:
+    """One decoding per team count up to 260 (single round robin), judged by
+    the cheap consequences of the rule: mutual consistency, no self-play,
+    no game scheduled more often than the permutation contains it, nothing
+    scheduled twice per team and day. Catches arithmetic that only fails for
+    particular team counts; the full model runs for n <= 40."""
+    import numpy as np
+    n, rounds = case["n"], 1
+    ic = _plain_instance(n, rounds) if n % 2 == 0 else None
+    space, decode, make_plan = _space_and_decoder(n, rounds, ic)
+    bp = [int(v) for v in space.blueprint]
+    require(len(bp) == n * (n - 1) // 2, f"blueprint of length {len(bp)}")
+    order = {"sorted": bp, "reversed": bp[::-1],
+             "interleaved": bp[::2] + bp[1::2]}[case["order"]]
+    x = space.create()
+    x[:] = order
+    y = make_plan()
+    y.fill(0)
+    sut("decode", decode, x, y)
+    arr = np.asarray(y).astype(np.int64)
+    days = n - 1
+    require(arr.shape == (days, n) and int(np.abs(arr).max(initial=0)) <= n,
+            "decoded plan has the wrong shape or entries outside -n..n")
+    avail: dict[tuple[int, int], int] = {}
+    for c in order:
+        g = oracle_ttp.game_of(c, n)
+        avail[g] = avail.get(g, 0) + 1
+    seen: dict[tuple[int, int], int] = {}
+    for d in range(days):
+        row = arr[d]
+        for t in range(n):
+            v = int(row[t])
+            if v == 0:
+                continue
+            o = abs(v) - 1
+            require(o != t, f"n={n}: team {t + 1} plays itself on day {d}")
+            back = int(row[o])
+            require(back == (-(t + 1) if v > 0 else (t + 1)),
+                    lambda: f"n={n}, day {d}: team {t + 1} has {v} but team "
+                    f"{o + 1} has {back}")
+            if v > 0:
+                seen[(t, o)] = seen.get((t, o), 0) + 1
+    for g, k in seen.items():
+        require(k <= avail.get(g, 0), lambda: f"n={n}: game {g} (home, away)"
+                f" scheduled {k} times, the permutation contains it "
+                f"{avail.get(g, 0)} times")
+    if n <= 40:
+        _compare(n, rounds, order, gen_ttp.plan_of(y))
+    ctx.rec.case(case, nontrivial=True, labels=[
+        "sizes", "sizes:n<=40" if n <= 40 else (
+            "sizes:n<=128" if n <= 128 else "sizes:n>128")])
+
+
+# (n, rounds) far outside the exhaustively checked blueprint domain: many
+# rounds (parity handling of the last round) - through the module function
+BIG_ROUNDS = tuple((n, r) for n in (2, 3, 4, 5, 6)
+                   for r in (8, 9, 31, 99, 100, 101, 255, 256, 257, 258, 259,
+                             261, 300, 1001)) + ((12, 21), (13, 21))
+
+
+def check_blueprint_big(ctx: Ctx, case: dict) -> None:
+    import numpy as np
+    from moptipyapps.ttp.game_encoding import search_space_for_n_and_rounds
+    n, rounds = case["n"], case["rounds"]
+    a = n if case["argtype"] == "int" else np.int64(n)
+    b = rounds if case["argtype"] == "int" else np.int64(rounds)
+    try:
+        space = sut("search_space_for_n_and_rounds",
+                    search_space_for_n_and_rounds, a, b,
+                    allowed=(TypeError, ValueError))
+    except (TypeError, ValueError):
+        require(case["argtype"] != "int", f"n={n}, rounds={rounds} rejected")
+        ctx.rec.case(case, labels=["blueprint_big:numpy_args_rejected"])
+        return
+    bp = [int(v) for v in space.blueprint]
+    why = oracle_ttp.blueprint_problems(bp, n, rounds)
+    require(not why, lambda: f"search space for n={n}, rounds={rounds} "
+            f"({case['argtype']} arguments): {why[:5]}")
+    ctx.rec.case(case, nontrivial=True, labels=[
+        "blueprint_big", f"blueprint_big:{case['argtype']}",
+        "rounds odd" if rounds % 2 else "rounds even"])
+
+
 # team counts next to the point where the game-plan storage type (range
 # -n..n) changes from int8 to int16; the constructor only accepts even n
 EDGE_TEAMS = (126, 128, 130)
@@ -225,7 +313,8 @@ def edge_cases(draw: Any) -> dict:
 
 
 SUBS = {"blueprint": check_blueprint, "decode_all": check_decode_all,
-        "decode": check_decode, "decode_edge": check_decode}
+        "decode": check_decode, "decode_edge": check_decode,
+        "sizes": check_sizes, "blueprint_big": check_blueprint_big}
 
 
 def run(ctx: Ctx) -> None:
@@ -245,6 +334,16 @@ def run(ctx: Ctx) -> None:
                 domain="all distinct orderings of the blueprints of "
                 "(2,2)..(2,13), (3,1), (3,2), (4,1) (summed over shards)",
                 **st)
+    ctx.each("blueprint_big", ctx.my_share(
+        {"n": n, "rounds": r, "argtype": t} for (n, r) in BIG_ROUNDS
+        for t in ("int", "numpy")), check_blueprint_big)
+    # quick: every third team count (rotating with the seed), thorough: all
+    step = 1 if ctx.thorough else 3
+    ctx.each("sizes", ctx.my_share(
+        {"n": n, "order": o} for n in range(3 + ctx.seed % step, 261, step)
+        for o in (("sorted", "reversed", "interleaved") if ctx.thorough
+                  else (("sorted", "reversed", "interleaved")[n % 3],))),
+        check_sizes)
     ctx.given("decode", gen_ttp.decode_cases(), check_decode,
               quick=2400, thorough=16 * 10000)
     ctx.given("decode_edge", edge_cases(), check_decode, quick=8,
